@@ -764,7 +764,7 @@ example : ∃ s',
     · exact .bin _ 9 _ _ _ _ (by decide) (by omega) (.paren _ _ (.bin _ 8 _ _ _ _ (by decide) (by omega) (.id _ _) (.id _ _))) (.id _ _)
   have hs := ParenExpr.seesT_init [("ID", "a"), ("EQUALS", "="), ("ID", "b"), ("CONDOP", "?"), ("ID", "c"), ("COMMA", ","), ("ID", "d"),
     ("COLON", ":"), ("ID", "e"), ("COMMA", ","), ("LPAREN", "("), ("ID", "f"), ("PLUS", "+"), ("ID", "g"),
-    ("RPAREN", ")"), ("TIMES", "*"), ("ID", "h"), ("SEMI", ";")] (by decide)
+    ("RPAREN", ")"), ("TIMES", "*"), ("ID", "h"), ("SEMI", ";")]
   have hstop : StopX ("SEMI", ";").1 := ⟨⟨⟨⟨by decide, by decide⟩, by decide⟩, by decide⟩, by decide⟩
   obtain ⟨s', hr, hs', _⟩ := parse_full e hwf _ ("SEMI", ";") [] hstop hs 400 (by decide)
   exact ⟨s', hr, hs'⟩
